@@ -360,9 +360,16 @@ def check_C13(tier, seed, t0):
         stages.append(dict(descs=san, trace_module="TraceIR.tla", trace_cfg="TraceIR.cfg", driver_of=lambda d: P.driver_of(d) + "_asan",
                            env={"ASAN_OPTIONS": "exitcode=66:detect_leaks=0", "UBSAN_OPTIONS": "print_stacktrace=1"}, sanitizer="SanitizerReport"))
         own = own + ["SanitizerReport"]
-    proofs = [("apa/NevAdjustApa.tla", "RangeInv", True), ("apa/NevAdjustApa.tla", "TooStrong", False)]
+    # unbounded obligations: nev_adjusted ranges; the work bound / dimension / shift ranges of IRSolver.tla inductive for every (nev, ncv, maxit)
+    # and any number of calls (the G_X/U_X operators themselves, EXTENDS IRSolver); MC_IRApa ties the relation Apalache works on to IRSolver!Next
+    proofs = [("apa/NevAdjustApa.tla", "RangeInv", True), ("apa/NevAdjustApa.tla", "TooStrong", False),
+              ("IRSolverApa.tla", "IndInv", True, dict(cinit="ConstInit", init="ApaInit", next="ApaNext", length=0)),
+              ("IRSolverApa.tla", "IndInv", True, dict(cinit="ConstInit", init="IndInit", next="ApaNext", length=1)),
+              ("IRSolverApa.tla", "TooStrong", False, dict(cinit="ConstInit", init="TooStrongInit", next="ApaNext", length=1))]
+    models = models + [("MC_IRApa.tla", "IR_refine.cfg", 8)]
     return ir_flow("C13", tier, seed, descs, own, models, COMMON_ASSUME + [
-        "Apalache 0.58 discharges the range of both nev_adjusted variants over unbounded integers (length 0, Init => Inv); the formulas are tied to the code by the extracted table (nevadj_mismatch = 0)"], t0,
+        "Apalache 0.58 discharges the range of both nev_adjusted variants over unbounded integers (length 0, Init => Inv); the formulas are tied to the code by the extracted table (nevadj_mismatch = 0)",
+        "Apalache proves the work bound trueOps - ops0 <= 2 ncv (maxit + 1), KInRange, ShiftInRange, OpsCounted, RestartsBounded inductive over IRSolver's own operators for all (nev, ncv, maxit) and any number of calls (IRSolverApa.tla); TLC checks on IR_refine that every step of IRSolver!Next is a step of the relation used there"], t0,
                    hang_is_violation=True, extra_stages=stages, neg_models=neg, proofs=proofs)
 
 
